@@ -14,6 +14,14 @@ a simulant's draw is the same in every request of the same (decision point, time
 singletons, subsets, permutations, repeats, before and after unrelated requests; registered simulants have
 distinct in-range positions; requests at a different decision point / time / additional key / seed share no draw;
 unknown simulants are refused; a decision point can be obtained once.
+
+Bit-level RNG model (lean/VivModel/Model/Sha1.lean, MT19937.lean, RandomBlock.lean; Props/C02Bits.lean): a fraction of the
+cases runs with `"bits": true` - NO block is handed to the driver (`rng 1`), it computes
+`RandomState(get_hash(seed string)).random_sample(size)` itself (SHA-1 mod 2^32-1, mt19937_seed, twist, tempering,
+53-bit doubles) and the real `get_draw` results are compared with it as exact numerators. Unit cases tie the two
+models to the real functions directly: `{"kind": "hash"}` = vivarium's `get_hash` (and hashlib's full digest) on ASCII /
+non-ASCII keys incl. the SHA-1 padding boundaries, `{"kind": "mt"}` = numpy's `RandomState(seed)` doubles and raw
+32-bit outputs for boundary and random seeds.
 """
 from __future__ import annotations
 
@@ -22,6 +30,8 @@ from fractions import Fraction
 
 from .. import stream_common as sc
 from ..runner import Prop
+
+BITS_FRACTION = 0.3         # of the generated stack cases: block computed by the Lean model from the seed string
 
 NAMES = ["dp", "mortality", "moves_left", "a_b", "a", "x.y", "gets_disease", "dp_2", "b_5", "a_5_b"]
 AKS = [None, None, None, 0, 5, -3, 17, "x", "a_b", "loc", "sex_choice", "b_5_c", "c", "with space", ""]
@@ -85,29 +95,84 @@ def _ak_str(ak):
     return str(ak)
 
 
+def kind_of(case) -> str:
+    return case.get("kind", "stack")
+
+
+def run_hash(case):
+    """the real `get_hash` (twice: it must be a function of the key) + hashlib's digest as reference for `sha`"""
+    import hashlib
+    sc.impl.load()
+    from vivarium.framework.randomness.stream import get_hash
+    out = []
+    for key in case["keys"]:
+        o = {}
+        try:
+            h = get_hash(key)
+            o["r"] = "ok"
+            o["h"] = int(h)
+            o["int"] = isinstance(h, int) and not isinstance(h, bool)
+            o["h2"] = int(get_hash(key))
+        except Exception as e:  # noqa: BLE001
+            o["r"] = sc.exc_class(e)
+        try:
+            o["sha"] = hashlib.sha1(key.encode("utf8")).hexdigest()
+        except UnicodeEncodeError:
+            o["sha"] = None
+        out.append(o)
+    return {"keys": out}
+
+
+def run_mt(case):
+    """numpy's legacy generator as `get_draw` uses it: doubles of `random_sample` ("d") as exact numerators over 2^53,
+    raw 32-bit outputs ("w": randint over the full range hands out `genrand_int32` unchanged)"""
+    sc.impl.load()
+    import numpy as np
+    out = []
+    for seed, n, what in case["reqs"]:
+        try:
+            rs = np.random.RandomState(seed=seed)
+            if what == "d":
+                v = [sc.numer(x) for x in rs.random_sample(n)]
+            else:
+                v = [int(x) for x in rs.randint(0, 1 << 32, size=n, dtype=np.uint32)]
+            out.append({"r": "ok", "v": v})
+        except Exception as e:  # noqa: BLE001
+            out.append({"r": sc.exc_class(e)})
+    return {"reqs": out}
+
+
 class C02(Prop):
     id = "C02"
-    lean_modules = ["VivModel.Props.C02"]
-    build_targets = ["VivModel.Model.Stream", "VivModel.Model.Proto"]
+    lean_modules = ["VivModel.Props.C02", "VivModel.Props.C02Bits"]
+    build_targets = ["VivModel.Model.Stream", "VivModel.Model.Sha1", "VivModel.Model.MT19937", "VivModel.Model.RandomBlock",
+                     "VivModel.Model.Proto"]
     driver = "C02"
-    technique = ("Lean 4 proof (structural induction over request lists; append cancellation for the seed string) + "
-                 "differential correspondence with real RandomnessManager / RandomnessStream / IndexMap stacks")
-    partial = ("'unrelated draws' for different seed strings is a property of SHA-1 / Mersenne twister (trusted base): proved is "
-               "that the seed string differs whenever exactly one component changes; unrelatedness and the numerator range are "
-               "sampled on the real code. Streams created with initializes_crn_attributes=True are positional by design and excluded.")
+    technique = ("Lean 4 proof (structural induction over request lists; append cancellation for the seed string; executable "
+                 "SHA-1 and MT19937 models with proved 32-bit / 53-bit range invariants, the MT recurrence and kernel-evaluated "
+                 "known answers) + differential correspondence with real RandomnessManager / RandomnessStream / IndexMap stacks, "
+                 "in bit-level mode with the block computed by the Lean model from the seed string alone")
+    partial = ("'unrelated draws' for different seed strings is a statistical property of SHA-1 / Mersenne twister: proved is "
+               "that the seed string differs whenever exactly one component changes; unrelatedness is sampled on the real code. "
+               "The numerator range [0, 2^53) is proved for the modelled block; that hashlib / numpy compute the modelled "
+               "functions is established by differential testing. Streams created with initializes_crn_attributes=True are "
+               "positional by design and excluded.")
     n_quick = 260
     n_thorough = 4000
     workers = 4
-    trusted_extra = ["numpy RandomState(seed).random_sample(n): prefix-stable block of multiples of 2^-53 in [0,1); SHA-1 seed hash "
-                     "(parameters of the model; the harness feeds the values the real functions produce)",
+    trusted_extra = ["hashlib.sha1 and numpy 1.26 RandomState(seed=int).random_sample(n) compute what Model/Sha1.lean and "
+                     "Model/MT19937.lean define: tied by differential testing only (driver ops hash/sha/mt/mtw and rng-mode draws, "
+                     "exact integers), not by proof; binary64 represents (a>>5 * 2^26 + b>>6) / 2^53 exactly",
+                     "in the cases without \"bits\" the block is data: the harness feeds the numerators the real functions produce",
                      "the index map's positions are data (modelled and proved injective / stable in C03)"]
     rule = ("case = one randomness stack (simulation or bare streams; key columns on/off; Simple/DateTime clock; 1-4 decision points) "
             "and 5-70 operations: draw requests (empty, singleton, subset, permutation, repeats, non-contiguous, unknown simulants), "
             "clock steps, births, positional init-stream requests; distinct by case hash; non-trivial = some simulant drawn in two "
-            "different requests of one (decision point, time, key, seed) and two requests differing in a key component")
+            "different requests of one (decision point, time, key, seed) and two requests differing in a key component; "
+            "unit cases (get_hash keys / RandomState seeds): non-trivial = at least one value computed")
 
     # ------------------------------------------------------------------ generation
-    def _env(self, rng, mode=None, crn=None, clock=None):
+    def _env(self, rng, mode=None, crn=None, clock=None, big=False):
         mode = mode or rng.choice(["sim", "sim", "direct", "direct", "direct"])
         crn = rng.random() < 0.5 if crn is None else crn
         clock = clock or rng.choice(["simple", "datetime"])
@@ -115,11 +180,14 @@ class C02(Prop):
         nstreams = rng.randint(1, 4)
         names = rng.sample(NAMES, nstreams)
         seed = [rng.choice([0, 1, 7, 42, 123456]), rng.choice([None, None, 0, 3, 99])]
+        if big:     # bit-level cases: blocks that need several regenerations of the twister state (312 doubles each)
+            lo = int(round(400 * (7.5 ** rng.random())))
+            big_size = rng.choice(sc.good_sizes(lo, lo + 40))
         if mode == "sim":
-            size = rng.choice(sc.good_sizes(10 * pop + 31, 10 * pop + 260))
+            size = big_size if big else rng.choice(sc.good_sizes(10 * pop + 31, 10 * pop + 260))
             streams = [[n, None] for n in names]
             return {"mode": mode, "crn": crn, "clock": clock, "size": size, "pop": pop, "seed": seed, "streams": streams}
-        size = rng.choice(sc.good_sizes(max(17, 4 * pop), 6 * pop + 200))
+        size = big_size if big else rng.choice(sc.good_sizes(max(17, 4 * pop), 6 * pop + 200))
         streams = [[n, None] for n in names]
         if rng.random() < 0.5:           # a second stream of the same decision point under another seed
             streams.append([names[0], rng.choice(["s2", 5, "7_1", 1000])])
@@ -156,8 +224,60 @@ class C02(Prop):
             return q
         return list(reversed(sorted(known)))
 
+    # keys for the get_hash unit cases: SHA-1 padding boundaries (55 / 56 bytes: one more chunk; 64; 119 / 120) and beyond
+    HASH_LENS = [0, 1, 2, 3, 4, 7, 8, 20, 31, 32, 54, 55, 56, 57, 63, 64, 65, 100, 118, 119, 120, 121, 127, 128, 129, 183, 184, 200]
+    NONASCII = ["\u00e9", "\u00df", "\u20ac", "\U0001f600", "\u4e2d", "\u0100", "\u07ff", "\u0800", "\uffff", "\U00010000",
+                "\U0010ffff", "\x7f", "\x80", "\x00", "\t", "\n"]
+
+    def _gen_hash(self, rng):
+        keys = []
+        for _ in range(rng.randint(8, 24)):
+            r = rng.random()
+            if r < 0.45:
+                n = rng.choice(self.HASH_LENS)
+                keys.append("".join(chr(rng.randint(32, 126)) for _ in range(n)))
+            elif r < 0.6:
+                n = rng.randint(0, 140)
+                keys.append("".join(chr(rng.randint(32, 126)) for _ in range(n)))
+            elif r < 0.8:    # a realistic seed string
+                t = rng.choice([str(rng.randint(0, 500)), f"20{rng.randint(10, 40)}-0{rng.randint(1, 9)}-1{rng.randint(0, 9)} "
+                                f"{rng.randint(10, 23)}:00:00", f"2021-03-0{rng.randint(1, 9)} 12:00:00"])
+                keys.append("_".join([rng.choice(NAMES), t, str(rng.choice(AKS)), str(rng.choice([0, 1, 7, 42, 123456, "4None", "s1"]))]))
+            else:            # non-ASCII: 2-, 3-, 4-byte UTF-8 sequences, control characters; byte length near a boundary
+                n = rng.choice([1, 2, 5, 27, 28, 29, 54, 55, 56, 60])
+                k = [chr(rng.randint(32, 126)) for _ in range(n)]
+                for _ in range(rng.randint(1, 4)):
+                    k.insert(rng.randint(0, len(k)), rng.choice(self.NONASCII))
+                keys.append("".join(k))
+        return {"kind": "hash", "keys": keys}
+
+    def _gen_mt(self, rng):
+        reqs = []
+        for _ in range(rng.randint(3, 7)):
+            r = rng.random()
+            if r < 0.3:
+                seed = rng.choice([0, 1, 2, 5489, (1 << 32) - 2, (1 << 32) - 1, (1 << 31), (1 << 31) - 1, (1 << 30), 4294967294])
+            else:
+                seed = rng.getrandbits(rng.choice([8, 16, 31, 32, 32, 32]))
+            n = rng.choice([0, 1, 2, 3, 17, 100, 311, 312, 313, 500, 623, 624, 625, 700, 936, 937, 1300])
+            what = "d" if rng.random() < 0.75 else "w"
+            if what == "w":
+                n = min(n, 700)
+            reqs.append([seed, n, what])
+            if rng.random() < 0.3:      # the same seed asked for a different length: prefix of the same sequence
+                reqs.append([seed, rng.choice([1, 5, 313, 640]), what])
+        if rng.random() < 0.15:
+            reqs.append([rng.choice([1 << 32, (1 << 32) + 5, 1 << 40]), 3, "d"])       # numpy refuses: ValueError
+        return {"kind": "mt", "reqs": reqs}
+
     def generate(self, rng: random.Random, i: int, tier: str):
-        env = self._env(rng)
+        r = rng.random()
+        if r < 0.045:
+            return self._gen_hash(rng)
+        if r < 0.08:
+            return self._gen_mt(rng)
+        bits = rng.random() < BITS_FRACTION
+        env = self._env(rng, big=bits and rng.random() < 0.2)
         known = list(range(env["pop"])) if env["mode"] == "sim" else list(env["labels"])
         ns = len(env["streams"])
         ops = []
@@ -209,6 +329,8 @@ class C02(Prop):
                         born_this_step = True
                 ops.append(["draw", rng.randrange(ns), self._request(rng, known, env["size"], env["crn"]), rng.choice(aks)])
         case = {"env": env, "ops": ops}
+        if bits:
+            case["bits"] = True
         if env["mode"] == "sim" and rng.random() < 0.6:
             sd = list(env["seed"])
             if rng.random() < 0.5:
@@ -260,9 +382,49 @@ class C02(Prop):
         out.append({"env": {"mode": "direct", "crn": True, "clock": "simple", "size": 29, "pop": 0, "seed": [1, 2],
                             "streams": [["dp", None]], "labels": []},
                     "ops": [["draw", 0, [], None], ["draw", 0, [3], None], ["birth", [3, 9]], ["draw", 0, [9, 3], None]]})
+        # ---- bit-level: the same stacks with the block computed by the Lean model from the seed string (no data handed over)
+        for k in (0, 3, 5, 6):
+            out.append(dict(out[k], bits=True))
+        out.append(dict(out[8], bits=True))      # the ambiguity pair: equal seed strings, equal blocks
+        out.append(dict(out[9], bits=True))      # block of exactly the population's size
+        # map sizes 53 and 2999: the first / last doubles of a block that needs 10 regenerations of the twister state
+        # (double 311 is the last one of the first 624 words, 312 the first one of the second)
+        out.append({"bits": True, "env": {"mode": "sim", "crn": False, "clock": "datetime", "size": 53, "pop": 5, "seed": [11, None],
+                                          "streams": [["mortality", None]]},
+                    "ops": [["draw", 0, [0, 1, 2, 3, 4], None], ["draw", 0, [52, 51, 0], "x"], ["step"], ["draw", 0, [4, 52], None],
+                            ["idraw", [3, 2, 1], None]]})
+        big = [0, 1, 310, 311, 312, 313, 623, 624, 935, 936, 2998]
+        out.append({"bits": True, "env": {"mode": "direct", "crn": False, "clock": "simple", "size": 2999, "pop": len(big), "seed": [0, 9],
+                                          "streams": [["dp", None], ["dp", "2999"]], "labels": big},
+                    "ops": [["draw", 0, big, None], ["draw", 0, big[::-1], 7], ["draw", 1, [2998, 0], None], ["draw", 0, [2999], None],
+                            ["step"], ["draw", 0, [312, 311], None], ["idraw", [5, 6, 7], None]]})
+        out.append({"bits": True, "env": {"mode": "sim", "crn": True, "clock": "simple", "size": 1301, "pop": 7, "seed": [123456, 3],
+                                          "streams": [["a_b", None], ["x.y", None]]},
+                    "ops": [["draw", 0, [0, 1, 2, 3, 4, 5, 6], None], ["draw", 1, [6, 0], ""], ["step"], ["birth", 2],
+                            ["draw", 0, [8, 7, 0], None], ["draw", 1, [8], "with space"]],
+                    "twin_seed": [123456, 4]})
+        # ---- get_hash: empty key, one-chunk / two-chunk padding boundaries (55 | 56 bytes, 119 | 120), FIPS 180 test vectors,
+        # realistic seed strings, non-ASCII keys (2-, 3-, 4-byte UTF-8), a lone surrogate (cannot be encoded)
+        a = "a"
+        out.append({"kind": "hash", "keys": ["", "abc", "abcdbcdecdefdefgefghfghighijhijkijkljklmklmnlmnomnopnopq",
+                                             a * 54, a * 55, a * 56, a * 57, a * 63, a * 64, a * 65, a * 119, a * 120, a * 121, a * 128,
+                                             a * 1000, "dp_2021-03-02 12:00:00_None_4", "mortality_0_None_0", "a_5_b_5_c_0",
+                                             "crn.init_3_x_12345699", "\u00e9", "dp_\u00e9t\u00e9_None_0", "\u20ac" * 18 + "a",
+                                             "\u20ac" * 18 + "ab", "\U0001f600", "a\x00b", "\x7f\x80", "\ud800", "ab\udfffcd"]})
+        # ---- RandomState(seed): boundary seeds, block lengths around the 624-word regeneration, a seed numpy refuses
+        m = (1 << 32) - 1
+        out.append({"kind": "mt", "reqs": [[0, 5, "d"], [0, 5, "w"], [1, 313, "d"], [1, 1, "d"], [m - 1, 3, "d"], [m, 3, "d"], [m, 4, "w"],
+                                           [5489, 2, "w"], [5489, 1000, "w"], [5489, 700, "d"], [m + 1, 1, "d"], [1 << 31, 0, "d"],
+                                           [4294967294, 1300, "d"], [42, 624, "w"], [42, 625, "w"], [42, 312, "d"]]})
         return out
 
     def shrink(self, case):
+        k = kind_of(case)
+        if k != "stack":
+            f = "keys" if k == "hash" else "reqs"
+            for i in range(len(case[f]) - 1, -1, -1):
+                yield dict(case, **{f: case[f][:i] + case[f][i + 1:]})
+            return
         ops = case["ops"]
         for i in range(len(ops) - 1, -1, -1):
             yield dict(case, ops=ops[:i] + ops[i + 1:])
@@ -273,6 +435,10 @@ class C02(Prop):
 
     # ------------------------------------------------------------------ implementation
     def run_impl(self, case):
+        if kind_of(case) == "hash":
+            return run_hash(case)
+        if kind_of(case) == "mt":
+            return run_mt(case)
         obs = run_env(case)
         if case.get("twin_seed") is not None:
             obs["twin"] = run_env(case, seed_override=case["twin_seed"], light=True)
@@ -297,9 +463,56 @@ class C02(Prop):
         so = case["env"]["streams"][k][1]
         return base if so is None else str(so)
 
+    def _unit_lines(self, case):
+        L = []
+        if kind_of(case) == "hash":
+            for key in case["keys"]:
+                if sc.ascii_ok(key):
+                    L += [f"hash {sc.hx(key)}", f"sha {sc.hx(key)}"]
+                else:
+                    cps = ",".join(str(ord(c)) for c in key)
+                    L += [f"hashu {cps}", f"shau {cps}"]
+        else:
+            for seed, n, what in case["reqs"]:
+                L.append(f"{'mt' if what == 'd' else 'mtw'} {seed} {n}")
+        return L
+
+    def _unit_compare(self, case, obs, replies):
+        dis = []
+        if kind_of(case) == "hash":
+            for n, (key, o) in enumerate(zip(case["keys"], obs["keys"])):
+                rh, rs = replies[2 * n], replies[2 * n + 1]
+                show = key if len(key) <= 40 else key[:37] + "..."
+                if o["r"] != "ok":
+                    if not (o["r"] == "err:UnicodeEncodeError" and rh == "err encode"):
+                        dis.append(f"key #{n} {show!r} ({len(key)} chars): get_hash {o['r']}, model {rh}")
+                elif rh != f"ok {o['h']}":
+                    dis.append(f"key #{n} {show!r} ({len(key)} chars): get_hash {o['h']}, model {rh}")
+                want = "err encode" if o["sha"] is None else f"ok {o['sha']}"
+                if rs != want:
+                    dis.append(f"key #{n} {show!r}: hashlib sha1 {o['sha']}, model {rs}")
+        else:
+            for n, (rq, o, r) in enumerate(zip(case["reqs"], obs["reqs"], replies)):
+                if o["r"] != "ok":
+                    if not (o["r"] == "err:ValueError" and r == "err seed"):
+                        dis.append(f"request #{n} {rq}: numpy {o['r']}, model {r[:60]}")
+                    continue
+                want = "ok " + (",".join(map(str, o["v"])) or "-")
+                if r != want:
+                    m = r[3:].split(",") if r.startswith("ok ") and r != "ok -" else []
+                    k = next((k for k, (a, b) in enumerate(zip(map(str, o["v"]), m)) if a != b), min(len(o["v"]), len(m)))
+                    dis.append(f"request #{n} {rq}: entry {k}: numpy {o['v'][k] if k < len(o['v']) else None}, model "
+                               f"{m[k] if k < len(m) else r[:40]}; lengths {len(o['v'])}/{len(m)}")
+        return dis
+
     def model_lines(self, case, obs):
+        if kind_of(case) != "stack":
+            return self._unit_lines(case)
         env = case["env"]
+        bits = bool(case.get("bits"))
         L = [f"size {obs['size']}", f"crn {1 if env['crn'] else 0}"]
+        if bits:
+            L.append("rng 1")
         if env["mode"] == "sim":
             for n, _ in env["streams"]:
                 L.append(f"stream {sc.hx(n)}")
@@ -315,7 +528,7 @@ class C02(Prop):
                 if env["crn"] and o["pos"] is not None:
                     L.append(sc.pos_line(o["pos"]))
                 continue
-            if o.get("ks") is not None:
+            if o.get("ks") is not None and not bits:
                 L += sc.blocks_lines(obs["blocks"], seen, o["ks"])
             k, t, a, sd = self._components(case, obs, op, o)
             req = op[2] if op[0] == "draw" else op[1]
@@ -323,11 +536,16 @@ class C02(Prop):
         return L
 
     def compare(self, case, obs, replies):
+        if kind_of(case) != "stack":
+            return self._unit_compare(case, obs, replies)
         env = case["env"]
+        bits = bool(case.get("bits"))
         dis = []
         it = iter(replies)
         if next(it) != "ok" or next(it) != "ok":
             dis.append("model refused size/crn")
+        if bits and next(it) != "ok":
+            dis.append("model refused rng 1")
         if env["mode"] == "sim":
             for n, _ in env["streams"]:
                 if next(it) != "ok":
@@ -346,7 +564,7 @@ class C02(Prop):
                 if env["crn"] and o["pos"] is not None:
                     next(it)
                 continue
-            if o.get("ks") is not None and o["ks"] not in seen and o["ks"] in obs["blocks"]:
+            if not bits and o.get("ks") is not None and o["ks"] not in seen and o["ks"] in obs["blocks"]:
                 seen.add(o["ks"])
                 if next(it) != "ok":
                     dis.append(f"op #{n}: model refused the block (length {len(obs['blocks'][o['ks']])}, size {obs['size']})")
@@ -370,11 +588,45 @@ class C02(Prop):
             if got != m:
                 k = next((k for k, (a, b) in enumerate(zip(got, m)) if a != b), min(len(got), len(m)))
                 dis.append(f"op #{n} {op}: entry {k}: impl {got[k] if k < len(got) else None}, model {m[k] if k < len(m) else None} "
-                           f"(label, position, numerator/2^53); lengths {len(got)}/{len(m)}")
+                           f"(label, position, numerator/2^53); lengths {len(got)}/{len(m)}"
+                           + ("; block computed by the model from the seed string (SHA-1 / MT19937)" if bits else ""))
         return dis
 
     # ------------------------------------------------------------------ oracle
+    def _unit_oracle(self, case, obs):
+        """what the property needs from the two functions, seen on the real ones: the hash is a function of the key and a
+        seed numpy accepts (else get_draw raises); a generator's doubles lie in [0, 1) as multiples of 2^-53 and a shorter
+        block is a prefix of a longer one (the draw at a position does not depend on how many were asked for)"""
+        F = []
+        if kind_of(case) == "hash":
+            for n, (key, o) in enumerate(zip(case["keys"], obs["keys"])):
+                if o["r"] != "ok":
+                    if o["sha"] is not None:
+                        F.append({"sig": "hash-refused", "msg": f"get_hash({key[:60]!r}) raised {o['r']}"})
+                    continue
+                if not o["int"] or not (0 <= o["h"] < (1 << 32)):
+                    F.append({"sig": "hash-not-a-numpy-seed", "msg": f"get_hash({key[:60]!r}) = {o['h']}: RandomState(seed) needs an "
+                              f"int in [0, 2^32)"})
+                if o["h"] != o["h2"]:
+                    F.append({"sig": "hash-not-deterministic", "msg": f"get_hash({key[:60]!r}) = {o['h']}, then {o['h2']}"})
+            return F
+        by_seed = {}
+        for n, (rq, o) in enumerate(zip(case["reqs"], obs["reqs"])):
+            if o["r"] != "ok":
+                continue
+            top = (1 << 53) if rq[2] == "d" else (1 << 32)
+            if any(v is None or not (0 <= v < top) for v in o["v"]):
+                F.append({"sig": "draw-out-of-range", "msg": f"RandomState({rq[0]}): a value outside [0, {top}) / not a multiple of 2^-53"})
+            p = by_seed.setdefault((rq[0], rq[2]), o["v"])
+            k = min(len(p), len(o["v"]))
+            if p[:k] != o["v"][:k]:
+                F.append({"sig": "block-not-prefix-stable", "msg": f"RandomState({rq[0]}): blocks of lengths {len(p)} and {len(o['v'])} differ "
+                          f"on their common prefix"})
+        return F
+
     def oracle(self, case, obs):
+        if kind_of(case) != "stack":
+            return self._unit_oracle(case, obs)
         env = case["env"]
         F = []
 
@@ -480,6 +732,10 @@ class C02(Prop):
 
     # ------------------------------------------------------------------ reporting
     def nontrivial(self, case, obs):
+        if kind_of(case) == "hash":
+            return any(o["r"] == "ok" for o in obs["keys"])
+        if kind_of(case) == "mt":
+            return any(o["r"] == "ok" and o["v"] for o in obs["reqs"])
         seen, multi, comps = {}, False, set()
         for op, o in zip(case["ops"], obs["ops"]):
             if op[0] == "draw" and o.get("r") == "ok" and op[2]:
@@ -491,9 +747,36 @@ class C02(Prop):
                     seen.setdefault((gk, s), tuple(op[2]))
         return multi and len(comps) > 1
 
+    def _unit_tags(self, case, obs):
+        t = ["kind:" + kind_of(case)]
+        if kind_of(case) == "hash":
+            for key, o in zip(case["keys"], obs["keys"]):
+                try:
+                    nb = len(key.encode("utf8"))
+                except UnicodeEncodeError:
+                    t.append("hash:unencodable-refused" if o["r"] != "ok" else "hash:unencodable-accepted")
+                    continue
+                t.append("hash:ascii" if sc.ascii_ok(key) else "hash:non-ascii")
+                t.append("hash-bytes:" + ("0" if nb == 0 else str(nb) if nb in (55, 56, 63, 64, 119, 120) else
+                                          "1-54" if nb < 55 else "57-118" if nb < 119 else ">120"))
+        else:
+            for (seed, n, what), o in zip(case["reqs"], obs["reqs"]):
+                t.append("mt:" + ("doubles" if what == "d" else "words") + (":" + o["r"][4:] if o["r"] != "ok" else ""))
+                t.append("mt-seed:" + (str(seed) if seed in (0, 1) else "2^32-2" if seed == (1 << 32) - 2 else "2^32-1" if
+                                       seed == (1 << 32) - 1 else ">=2^32" if seed >= (1 << 32) else "other"))
+                words = 2 * n if what == "d" else n
+                t.append("mt-regenerations:" + ("0" if words == 0 else "1" if words <= 624 else "2" if words <= 1248 else ">2"))
+        return t
+
     def tags(self, case, obs):
+        if kind_of(case) != "stack":
+            return self._unit_tags(case, obs)
         env = case["env"]
-        t = [f"mode:{env['mode']}", f"crn:{int(env['crn'])}", f"clock:{env['clock']}", f"streams:{len(env['streams'])}"]
+        t = [f"mode:{env['mode']}", f"crn:{int(env['crn'])}", f"clock:{env['clock']}", f"streams:{len(env['streams'])}",
+             "kind:stack", "block:" + ("computed-by-model" if case.get("bits") else "data")]
+        if case.get("bits"):
+            sz = obs["size"]
+            t.append("bits-size:" + ("<=312" if sz <= 312 else "313-1000" if sz <= 1000 else ">1000"))
         if "twin" in obs:
             t.append("twin-seed-run")
         if env["mode"] == "sim":
@@ -536,7 +819,11 @@ class C02(Prop):
         return t
 
     def sample_view(self, case, obs):
-        return {"env": case["env"], "ops": case["ops"][:6],
+        if kind_of(case) == "hash":
+            return {"kind": "hash", "keys": case["keys"][:4], "observed": obs["keys"][:4]}
+        if kind_of(case) == "mt":
+            return {"kind": "mt", "reqs": case["reqs"][:4], "observed": [dict(o, v=o.get("v", [])[:4]) for o in obs["reqs"][:4]]}
+        return {"env": case["env"], "bits": bool(case.get("bits")), "ops": case["ops"][:6],
                 "observed": [{k: v for k, v in o.items() if k in ("r", "idx", "hx", "pos", "t")} for o in obs["ops"][:6]]}
 
 
